@@ -185,4 +185,24 @@ seq(prop="C09", lean_targets=["TransportVerif.Props.C09"], pkg="deadline", run="
                        "time.AfterFunc semantics as modelled (Stop reports whether it prevented the expiry; Reset re-arms; an expired timer's callback may run arbitrarily late)"],
     assumptions=["fewer than 256 callbacks outstanding at once (pending is a uint8); the theorem states this bound explicitly"])
 
+def _vtime(files):
+    from . import core
+    return lambda work: core.vtime_overlay(work, files)
+
+
+seq(prop="C15", lean_targets=["TransportVerif.Props.C15"], pkg="vnet", run="^TestVerifTBF$", component="tbf",
+    files=["tbf_h_test.go"], quick_n=800, thorough_n=40000, search_n=3000,
+    variants=[dict(overlay_fn=_vtime(["vnet/tbf.go"]))],
+    nontrivial=["queued", "multi-forward", "dropped-queue-full", "set-rate", "set-burst", "after-idle", "burst-arrival"],
+    rule="random timed arrival lists (10..80 events) under a virtual clock: spacings 0, 1 us, 1 ms, 20/50/99/100/101/150 ms, 1 s, 10 s and random; sizes 0, 1, 100, 1200, 1500, "
+         "burst-1, burst, burst+1, 3*burst; rates 16k..8M bit/s, bursts 50..100000 bytes, queue 3000..50000 bytes; run-time rate and burst changes; Close. Every sub-interval of "
+         "the implementation's own forward trace is judged against burst + rate*dt (largest values in force), plus order and duplicates. non-trivial = datagrams wait in the queue, "
+         "several leave at once, the queue overflows, rate or burst change, arrival after an idle period or in a burst; distinct = hash of the ops text",
+    design_ref="DESIGN.md 7.15", technique="Lean 4 proof over exact rationals: token-bucket invariant (0 <= tokens <= burst) and the interval bound by induction over timed arrival lists; the same model instantiated with IEEE doubles is compared bit for bit with tbf.go under a virtual clock",
+    level_text="PENDING", level_note="PENDING",
+    trusted=LEAN_TB + ["Model/TBF.lean is generic in the number type: the Float instance is validated against tbf.go (forwarded datagrams per arrival, token count bit for bit, queue) under the virtual clock vtime injected by the source rewrite; the Rat instance carries the theorems",
+                       "float64 rounding: the theorem is about exact rationals; the oracle judges the implementation's own trace with 0.001 byte of slack, and cases where the Float and Rat instances decide differently are counted (tag float-rat-divergence)",
+                       "vtime (virtual clock) and the regex-based time rewrite of vnet/tbf.go; quiescence of the filter goroutine read from runtime.Stack"],
+    assumptions=["arrivals are sequential (one onInboundChunk at a time); concurrent senders only interleave at the unbuffered channel"])
+
 ALL = SEQ
